@@ -42,6 +42,9 @@ def rand_para(rng, i):
         h = rng.choice([("Heading1", 1), ("Heading2", 2), ("H3x", 3), ("h4id", 4), ("Heading5", 5), ("Heading6", 6)])
         ppr.append(X("w:pStyle", {"w:val": h[0]}))
         exp = ("h", h[1])
+        if rng.random() < 0.4:
+            # a NUMBERED heading (by id or recognised by name only): still its heading, not a list item
+            ppr.append(X("w:numPr", {}, [X("w:ilvl", {"w:val": str(rng.choice([0, 1, 2]))}), X("w:numId", {"w:val": rng.choice(["1", "2", "3"])})]))
     elif k < 0.3:
         ppr.append(X("w:pStyle", {"w:val": rng.choice(["Normal", "Mystery", "Undefined"])}))
     elif k < 0.36:
